@@ -124,6 +124,44 @@ def lib_parse(**kw):
         return ("reject", type(e).__name__)
 
 
+def giant_text(ctx, t, form):
+    """a sparse input of 16-257 MiB: comment padding, with a long token or a comment that contains parentheses
+    straddling every multiple of 2**20 and of 10**6 characters (any block-wise reader has its block boundaries there),
+    and copies of the generated form in between.  Costs about a second: almost everything is comment text."""
+    exps = [24, 25, 26, 26, 27, 27] + ([28] if ctx.tier != "quick" else [])
+    size = (1 << exps[t.draw(len(exps))]) + (1 << 20) + t.draw(1 << 20)
+    pad = "; pad (not a form) " + "x" * (200 + t.draw(400)) + "\n"
+    marks = sorted(set(range(1 << 20, size, 1 << 20)) | set(range(10 ** 6, size, 10 ** 6)))
+    parts = ["(\n"]
+    n = 2
+    for k, m in enumerate(marks):
+        room = m - n - 16
+        if room < 64:
+            continue
+        unit = form + "\n"
+        if room > len(unit) + 64 and t.draw(8) == 0:
+            parts.append(unit)
+            n += len(unit)
+            room -= len(unit)
+        cnt = room // len(pad)
+        parts.append(pad * cnt)
+        n += cnt * len(pad)
+        fill = m - n - 8
+        kind = t.draw(3)
+        if kind == 0:
+            item = " tok" + "a" * fill + f"straddle{k:04d}\n"  # one token across the mark
+        elif kind == 1:
+            item = ";" + "c" * (fill + 4) + f" (leak {k}) tail\n"  # a comment across the mark, parentheses after it
+        else:
+            item = " " * fill + f"(sub-{k:04d} (x{k} y))\n"  # a sub-form across the mark
+        parts.append(item)
+        n += len(item)
+    parts.append(")\n")
+    ctx.probes["giant_input"] += 1
+    ctx.measure("giant_input_MiB", n >> 20)
+    return "".join(parts)
+
+
 def run(ctx):
     t = ctx.s("workload")
     f = ctx.s("fs")
@@ -148,11 +186,17 @@ def run(ctx):
         text = "(\n" + unit * reps + ")\n"
         flags.add(f"big-{target >> 10}KiB")
         ctx.probes["big_input"] += 1
+    giant = ctx.seed % 6000 == 77 and not huge
+    if giant:
+        text = giant_text(ctx, t, text.strip())
+        flags.add(f"giant-{len(text) >> 20}MiB")
     data = text.encode("utf-8")
     want = sexpr.read_one(text)  # the generator only makes well-formed complete texts
-    assert big < 40 or want == lower_tree(tree)
+    assert big < 40 or giant or want == lower_tree(tree)
     # ---- the writer
     plan = ["ack", "ack", "error", "crash", "append-form", "append-paren", "drop-paren", "crash"][f.draw(8)]
+    if giant:
+        plan = "ack"
     path = ctx.rundir / "in.pddl"
     k = None
     if plan in ("error", "crash"):
